@@ -76,6 +76,12 @@ Sensitivity (quick tier, seed 1, scratch copies of tornado/iostream.py; every mu
       C11.wrong_data (deterministic family, 1248 cases: a tiny read - read_into with a 0/1-byte buffer,
       read_bytes(0/1), each partial or not - in EVERY position of two fixed programs, optionally a second
       zero-length read_into two reads later, x 3 arrival patterns x read_chunk_size {1, 64})
+  M15 _read_to_buffer: ``_read_buffer_size > max_buffer_size`` -> ``>=`` (a buffer reaching EXACTLY the limit
+      closes the stream with StreamBufferFullError)  -> every seed: part "limit", C11.buffer_full_below_limit
+      (deterministic family, 432 cases: max_buffer_size N in {16,64,300} x N-1 / N / N+1 bytes delivered x
+      read_bytes, read_into, read_until (with and without max_bytes = N), read_until_regex, read_until_close,
+      two half reads, no delimiter at all x 3 arrival patterns x read_chunk_size {1,4096}; N-1 and N under
+      the full oracle, N+1 is the overflow EITHER class)
   (M9 ``>= next_find_pos`` -> ``>`` survives: it only changes how often the buffer is scanned - equivalent.)
 """
 import collections
@@ -234,6 +240,8 @@ async def scenario(ctx, case, labels):
             boundaries.append(pos)
         st_["fed"] = fed + len(chunk)
         boundaries.append(st_["fed"])
+        if mbs is not None and st_["fed"] - st_["cursor"] == mbs:
+            labels.add("unconsumed_equals_max_buffer_size")
         if mbs is not None and st_["fed"] - st_["cursor"] > mbs:
             # more unconsumed data than max_buffer_size: the stream may close itself from now on
             st_["overflow"] = True
@@ -484,10 +492,42 @@ def tiny_family():
                                    "tail": [9], "blocked_write": None}
 
 
-PARTS = {"main": run_case, "tiny": run_case}
+# ---- deterministic family: exact read-buffer limit.  max_buffer_size = N is the "maximum amount of incoming
+# data to buffer": N-1 and exactly N buffered bytes must work for every read kind (full oracle - the buffer
+# can never exceed N when no more than N unconsumed bytes were delivered); N+1 is the overflow EITHER class.
+def limit_family():
+    for N in (16, 64, 300):
+        for delta in (-1, 0, 1):
+            T = N + delta
+            progs = [
+                ("bytes", b"x" * T, [("bytes", T, False)]),
+                ("into", b"x" * T, [("into", T, False)]),
+                ("until", b"x" * (T - 1) + b"\n", [("until", 0, None)]),
+                ("until_mb", b"x" * (T - 1) + b"\n", [("until", 0, ("abs", T))]),
+                ("regex", b"x" * (T - 2) + b"5:", [("regex", 1, None)]),
+                ("close", b"x" * T, [("close",)]),
+                ("two_halves", b"x" * T, [("bytes", T // 2, False), ("bytes", T - T // 2, False)]),
+                ("nodelim", b"x" * T, [("until", 0, None)]),
+            ]
+            for name, data, reads in progs:
+                for pattern in ("data_first", "read_first", "one_byte"):
+                    for rcs in (1, 4096):
+                        rsteps = [("read", r) for r in reads]
+                        if pattern == "data_first":
+                            steps = [("feed", [T])] + rsteps
+                        elif pattern == "read_first":
+                            steps = rsteps[:1] + [("feed", [T])] + rsteps[1:]
+                        else:
+                            steps = rsteps[:1] + [("feed", [1] * T)] + rsteps[1:]
+                        yield {"rcs": rcs, "mbs": N, "data": data, "steps": steps, "end": "fin", "tail": [T],
+                               "blocked_write": None}
+
+
+PARTS = {"main": run_case, "tiny": run_case, "limit": run_case}
 
 
 def main(ctx):
     ctx.run_replays(PARTS)
     ctx.enumerate(tiny_family(), run_case, name="tiny")
+    ctx.enumerate(limit_family(), run_case, name="limit")
     ctx.explore(case_s(), run_case, ctx.n(1500, 150000), name="main")
